@@ -603,8 +603,13 @@ func EncodeFileBlock(typ string, payload []byte, useZlib bool, level int, indexD
 		// neither raw nor zlib_data
 		blob.varint(2, uint64(len(payload)))
 	case useZlib || dmg.Kind == "bad-zlib-header" || dmg.Kind == "corrupt-zlib" || dmg.Kind == "bad-adler" || dmg.Kind == "rawsize-plus" || dmg.Kind == "rawsize-minus" || dmg.Kind == "rawsize-abs" || dmg.Kind == "zlib-truncated":
-		if level == 0 {
+		switch level {
+		case 0:
 			level = zlib.DefaultCompression
+		case -1:
+			level = zlib.NoCompression // stored deflate blocks
+		case -2:
+			level = zlib.HuffmanOnly
 		}
 		z := deflate(payload, level)
 		rs := int64(len(payload))
@@ -632,6 +637,10 @@ func EncodeFileBlock(typ string, payload []byte, useZlib bool, level int, indexD
 		blob.bytes(3, z)
 	default:
 		blob.bytes(1, payload)
+		if level == -1 {
+			// raw_size is optional for every blob, also for an uncompressed one
+			blob.varint(2, uint64(len(payload)))
+		}
 	}
 	blobBytes := blob.b
 	if dmg.Kind == "garbage-blob" {
